@@ -144,6 +144,8 @@ def run(prog, tier):
 
     obs.extend(cancellation_obligations(prog, "difference-before-square", ['inference/gp/covariance.py', 'inference/gp/regression.py']))
     obs.extend(dtype_hazard_obligations(prog, "float-arithmetic", ['inference/gp/regression.py']))
+    from .common import call_order_obligations
+    obs.extend(call_order_obligations(prog, "arguments-in-order", ['inference/gp/regression.py']))
 
     obs.extend(memo_obligations(prog, "cache-key", [prog.cls("GpRegressor")]))
 
